@@ -89,6 +89,12 @@ def set_match(
     """
     vertex = get_vertex_from_path_builder(expression)
     parent_vertex = vertex.parent
+    if parent_vertex is None:
+        raise SetError(
+            vertex,
+            f"The path {vertex} is the root.  It cannot be assigned, only a key or an index below it can.",
+            ""
+        )
 
     parent_expression = PathBuilder(parent_vertex)
     try:
